@@ -3,10 +3,13 @@
 
   The grammar and tree-to-AST conversion are modelled in `Pdlv.Syntax` (a PEG interpreter with
   pest's semantics over the transcribed grammar) and compared with the real parser on every
-  run.  The theorems here are about the two pure functions every source range and every integer
-  value goes through: `SourceLocation::new` and `as_usize`.
+  run; the grammar itself is re-translated from parser.rs on every run and compared with the
+  transcription.  The theorems here are about the two pure functions every source range and every
+  integer value goes through (`SourceLocation::new`, `as_usize`) and about the interpreter, for every
+  grammar and every input: every node's range lies within the file, is ordered, and nests.
 -/
 import Pdlv.Syntax
+import Pdlv.Lemmas.Peg
 
 namespace Pdlv
 namespace Syntax
@@ -113,6 +116,58 @@ example : asUsize "0x1f" = some 31 ∧ asUsize "31" = some 31 ∧ asUsize "0x1F"
 example : asUsize "18446744073709551615" = some (2 ^ 64 - 1) ∧ asUsize "18446744073709551616" = none ∧
           asUsize "0xffffffffffffffff" = some (2 ^ 64 - 1) ∧ asUsize "0x10000000000000000" = none := by
   refine ⟨by rfl, by rfl, by rfl, by rfl⟩
+
+
+/-! ### source ranges of the parse tree -/
+
+open Peg in
+/-- **Every node's source range lies within the file, is ordered, and nests** — for every grammar, every start
+    rule and every input, whatever tree the PEG interpreter returns: top-level nodes are consecutive
+    (`chain`: each starts at or after the end of the previous one) between offset 0 and the length of the
+    input; every node has `start ≤ stop`, and its children are consecutive within `[start, stop]`,
+    recursively (`Pair.within`). -/
+theorem parse_ranges (g : Grammar) (start : String) (input : Array UInt8) (ps : List Pair)
+    (h : Peg.parse g start input = some ps) : chain ps 0 input.size = true := by
+  simp only [Peg.parse, Option.map_eq_some_iff] at h
+  obtain ⟨st', hr, rfl⟩ := h
+  have := run_ok g input defaultFuel _ _ _ _ st' 0 hr (by simp) (by simp [chain])
+  exact chain_mono st'.pairs 0 st'.pos 0 input.size this.2.2 (Nat.le_refl _) this.2.1
+
+open Peg in
+/-- what `within` says, spelled out: the span is ordered and inside the enclosing one, and every child lies
+    inside its parent -/
+theorem within_spec (p : Pair) (lo hi : Nat) (h : p.within lo hi = true) :
+    lo ≤ p.start ∧ p.start ≤ p.stop ∧ p.stop ≤ hi ∧ chain p.children p.start p.stop = true := by
+  cases p with
+  | mk r s e cs =>
+    simp only [Pair.within, Bool.and_eq_true, decide_eq_true_eq] at h
+    exact ⟨h.1.1.1, h.1.1.2, h.1.2, h.2⟩
+
+open Peg in
+/-- … and what `chain` says: every member lies in `[lo, hi]`, and siblings do not overlap -/
+theorem chain_spec : ∀ (ps : List Pair) (lo hi : Nat), chain ps lo hi = true →
+    (∀ p ∈ ps, p.within lo hi = true) ∧ ps.Pairwise (fun a b => a.stop ≤ b.start)
+  | [], _, _, _ => ⟨by simp, List.Pairwise.nil⟩
+  | p :: ps, lo, hi, h => by
+    simp only [chain, Bool.and_eq_true] at h
+    obtain ⟨ih1, ih2⟩ := chain_spec ps p.stop hi h.2
+    have hp := within_stop p lo hi h.1
+    refine ⟨?_, List.Pairwise.cons ?_ ih2⟩
+    · intro q hq
+      rcases List.mem_cons.mp hq with rfl | hq
+      · exact h.1
+      · exact within_mono q p.stop hi lo hi (ih1 q hq) hp.1 (Nat.le_refl _)
+    · intro q hq
+      exact (within_spec q p.stop hi (ih1 q hq)).1
+
+/-- the theorem applies to the transcribed PDL grammar: a successful parse of any text has one root node
+    spanning a range inside the text -/
+theorem pdl_root_range (input : Array UInt8) (root : Peg.Pair)
+    (h : Peg.parse grammar "file" input = some [root]) : root.start ≤ root.stop ∧ root.stop ≤ input.size := by
+  have := parse_ranges grammar "file" input [root] h
+  simp only [Peg.chain, Bool.and_eq_true] at this
+  have := within_spec root 0 input.size this.1
+  exact ⟨this.2.1, this.2.2.1⟩
 
 end Syntax
 end Pdlv
